@@ -1855,6 +1855,11 @@ method or constructor of some type."""
                     param.scope = ast.PARAM_SCOPE_ASYNC
                     param.transfer = ast.PARAM_TRANSFER_NONE
 
+        # Callbacks whose (closure) or (destroy) annotation already named a
+        # parameter; the guesses below must not replace those.
+        explicit_closure = [p for p in params if p.closure_name is not None]
+        explicit_destroy = [p for p in params if p.destroy_name is not None]
+
         callback_param = None
         for param in params:
             argnode = self._transformer.lookup_typenode(param.type)
@@ -1869,12 +1874,16 @@ method or constructor of some type."""
             if callback_param is None:
                 continue
             if is_destroynotify:
+                if callback_param in explicit_destroy:
+                    continue
                 callback_param.destroy_name = param.argname
                 callback_param.scope = ast.PARAM_SCOPE_NOTIFIED
                 callback_param.transfer = ast.PARAM_TRANSFER_NONE
             elif (param.type.is_equiv(ast.TYPE_ANY) and
                   param.argname is not None and
                   param.argname.endswith('data')):
+                if callback_param in explicit_closure:
+                    continue
                 callback_param.closure_name = param.argname
 
         for param in params:
